@@ -185,8 +185,11 @@ def sec_point(sec, require_compressed=False):
 
 
 class Validator(object):
-    def __init__(self, coin):
+    def __init__(self, coin, strict=True):
+        """strict=False: the verdict under pycoin's default flags (P2SH + WITNESS) for unlocking data that is
+        canonical except for hash-type bytes: any hash-type byte is accepted, the digest is the one that byte defines"""
         self.coin = coin
+        self.strict = strict
         self.forkid = coin["sig"] in ("bch", "btg")
         self.cache = {}
         self.digests = []   # (idx, hash_type, sigversion, digest) computed while judging: for C04 cross-checks
@@ -211,7 +214,7 @@ class Validator(object):
         if rs is None:
             return False
         ht = sig[-1]
-        if not self.forkid and (ht & ~sh.ANYONECANPAY) not in (sh.ALL, sh.NONE, sh.SINGLE):
+        if self.strict and not self.forkid and (ht & ~sh.ANYONECANPAY) not in (sh.ALL, sh.NONE, sh.SINGLE):
             return False
         r, s = rs
         if s > HALF_N:
